@@ -10,6 +10,8 @@ import ast
 import os
 import sys
 import unicodedata
+import re
+import rx
 
 ASCII_CODECS = ['ascii', 'latin_1', 'cp1252', 'cp437', 'iso8859_15']
 EBCDIC_CODECS = ['cp037', 'cp500', 'cp1140', 'cp273', 'cp1026', 'cp875', 'cp424']
@@ -62,7 +64,13 @@ def field_cfg(c):
     pt = PTYPE.get(c.get('field_python_type'), 'PTStr')
     fmt = coq_str(c.get('field_date_format', '%y%m%d'))
     pr = PROC.get(c.get('field_processor'), 'PNone')
-    pc = 'true' if c.get('field_processor_config') else 'false'
+    if c.get('field_processor') == 'DE43':
+        try:
+            pc = rx.coq_cfg(c.get('field_processor_config'))
+        except re.error as ex:
+            raise GenError(f'DE43 regex does not compile: {ex}')
+    else:
+        pc = 'D43None'                  # field_processor_config is consulted by the DE43 processor only
     return f'mkfc {ft} {fl} {pt} {fmt} {pr} {pc}'
 
 
